@@ -1513,6 +1513,8 @@ class GenEval(AutoEvaluator):
     # ---- small record classes of the module (a dataclass, or a class whose __init__ only stores its arguments): objects with identity
     def _class_def(self, name):
         m = getattr(self.fn, "_vmod", None)
+        if name is not None and ("localclass:" + name) in self.heap:
+            return self.heap["localclass:" + name]
         if m is None or name is None:
             return None
         for st in m.tree.body:
@@ -1528,6 +1530,7 @@ class GenEval(AutoEvaluator):
         is_dc = any((dotted(d) or dotted(getattr(d, "func", None)) or "").split(".")[-1] == "dataclass" for d in cdef.decorator_list)
         obj = self._new_obj("namespace")
         self.heap["class:" + obj] = cdef
+        self.heap["classenv:" + obj] = self.heap.get("localclassenv:" + cdef.name) if self.heap.get("localclass:" + cdef.name) is cdef else None
         if init is not None:
             env = self._bind(init, [F.sym(obj)] + list(av[0]), av[1], False, self)
             if env is None or _has_yield(init):
@@ -1786,8 +1789,10 @@ class GenEval(AutoEvaluator):
         if av is None:
             return NotImplemented
         pos, kw = av
+        outer = None
         if selfobj is not None:
             pos = [F.sym(selfobj)] + list(pos)
+            outer = self.heap.get("classenv:" + selfobj)
         recv = name.rsplit(".", 1)[0] if method else None
         if unbound:
             if not pos or symname(pos[0]) is None:
@@ -1797,6 +1802,11 @@ class GenEval(AutoEvaluator):
         if env is None:
             return NotImplemented
         own = set(env)
+        if outer is not None:
+            # a method of a class defined inside a function reads the variables of that function (late binding, as a nested function does)
+            for k, v in outer.env.items():
+                if k not in env and "." not in k and not k.startswith(HEAP):
+                    env[k] = v
         if method:
             # the object's attributes are visible to its methods
             for k, v in self.env.items():
@@ -2012,6 +2022,14 @@ class GenEval(AutoEvaluator):
             return
         if isinstance(st, (ast.FunctionDef,)):
             self.env[st.name] = Closure(st, self)
+            return
+        if isinstance(st, ast.ClassDef) and not st.keywords and not st.decorator_list or \
+                isinstance(st, ast.ClassDef) and all((dotted(d_) or dotted(getattr(d_, "func", None)) or "").split(".")[-1] == "dataclass" for d_ in st.decorator_list):
+            self.heap["localclass:" + st.name] = st          # a small class defined inside the function (instances are objects created here)
+            self.heap["localclassenv:" + st.name] = self      # ... its methods read the variables of this scope
+            for x in st.body:
+                if isinstance(x, ast.FunctionDef):
+                    x._vmod = getattr(self.fn, "_vmod", None)
             return
         if isinstance(st, (ast.Assign, ast.AugAssign, ast.AnnAssign, ast.Return)):
             if isinstance(st, ast.AugAssign) and isinstance(st.target, ast.Name):
